@@ -353,7 +353,12 @@ func c17BadUTF8(t *tape.Tape, doc []byte) []byte {
 	at := quotes[t.Intn(len(quotes))] + 1
 	bad := [][]byte{{0xff}, {0xc3}, {0xe2, 0x82}, {0xed, 0xa0, 0x80}, {0xc0, 0xaf}, {0xf4, 0x90, 0x80, 0x80}, {0x80}}[t.Intn(7)]
 	out := append([]byte(nil), doc[:at]...)
+	// sometimes next to valid multi-byte text, a correctly encoded U+FFFD included
+	// (what the invalid bytes are replaced by must not be confused with it)
+	valid := []string{"", "", "\ufffd", "\u00e9", "\U0001F600", "a"}
+	out = append(out, valid[t.Intn(len(valid))]...)
 	out = append(out, bad...)
+	out = append(out, valid[t.Intn(len(valid))]...)
 	return append(out, doc[at:]...)
 }
 
